@@ -3,6 +3,7 @@ package checks
 import (
 	"encoding/json"
 	"fmt"
+	"math"
 	"strings"
 	"time"
 
@@ -307,7 +308,97 @@ func c08RecipeWork(w *h.W) {
 	}
 }
 
+// (e) numbers: the complete comparison matrix over the integer and float boundary grids (bare and
+// nested in compounds and lists), and sorts of all short lists over the extreme values.
+func c08NumberWork(w *h.W) {
+	var nums []string
+	for _, i := range c07Ints(w.Thorough()) {
+		nums = append(nums, fmt.Sprint(i))
+	}
+	for _, f := range c07Floats(w.Thorough()) {
+		if f == 0 && math.Signbit(f) {
+			continue // -0.0 versus 0.0 is left open (see the assumptions)
+		}
+		nums = append(nums, ref.Text(ref.Flt(f)))
+	}
+	var sets [][]string
+	sets = append(sets, nums)
+	for _, wrapf := range []string{"f(%s)", "[%s]", "g(a, %s)", "%s-a", "[a, %s|t]"} {
+		var s []string
+		for i, n := range nums {
+			if i%2 == 0 || w.Thorough() {
+				s = append(s, fmt.Sprintf(wrapf, n))
+			}
+		}
+		sets = append(sets, s)
+	}
+	for _, s := range sets {
+		if !w.Mine() {
+			continue
+		}
+		c := &c08LawCase{Law: true, Terms: s}
+		w.GuardFor(c, 5*time.Minute)
+		exp, act, ok := c08LawRun(c)
+		w.Unguard()
+		w.Eval(1)
+		w.States(len(s))
+		w.Transitions(len(s) * len(s))
+		w.Traces(1)
+		w.Nontrivial("numbers:" + s[0])
+		w.Outcome("laws-numbers")
+		if !ok {
+			w.Violation("laws(numbers): "+exp, c, exp, act, len(s))
+		}
+	}
+	// the six comparison predicates on all pairs of the bare grid
+	for i, a := range nums {
+		if !w.Mine() {
+			continue
+		}
+		if w.Expired() {
+			return
+		}
+		pc := &h.ProgCase{Independent: true}
+		for _, b := range nums {
+			for _, op := range c08Ops {
+				pc.Steps = append(pc.Steps, h.Query(Cm(op, rd(a), rd(b)), 2))
+			}
+		}
+		runProgCase(w, "number-pairs", pc, i)
+	}
+	// sorting extreme values
+	ext := []string{"9223372036854775807", "-9223372036854775808", "-1", "0", "1", "-2", "4611686018427387904", "-4611686018427387905", "1.0e10", "-1.5", "9223372036854775806", "1.0"}
+	maxLen := w.Pick(3, 4)
+	for l := 2; l <= maxLen; l++ {
+		seqs(l-1, len(ext), func(idx []int) bool {
+			if !w.Mine() {
+				return true
+			}
+			if w.Expired() {
+				return false
+			}
+			pc := &h.ProgCase{Independent: true}
+			for _, last := range ext {
+				var el, ps []string
+				for _, j := range idx {
+					el = append(el, ext[j])
+				}
+				el = append(el, last)
+				for i, e := range el {
+					ps = append(ps, fmt.Sprintf("%s-%d", e, i))
+				}
+				lst := "[" + strings.Join(el, ", ") + "]"
+				pc.Steps = append(pc.Steps, h.Query(rd("sort("+lst+", S)"), 2), h.Query(rd("msort("+lst+", S)"), 2),
+					h.Query(rd("setof(E, member(E, "+lst+"), S)"), 2), h.Query(rd("keysort(["+strings.Join(ps, ", ")+"], S)"), 2))
+			}
+			runProgCase(w, "sort-numbers", pc, l)
+			return true
+		})
+	}
+}
+
 func c08Work(w *h.W) {
+	c08NumberWork(w)
 	c08LawWork(w)
 	c08PairWork(w)
 	c08SortWork(w)
@@ -325,7 +416,7 @@ func c08Replay(b []byte) (string, string, bool) {
 func init() {
 	h.Register(&h.Check{
 		ID: "C08",
-		Rule: "(a) all ordered pairs over a universe of 66 terms (variables, floats, integers incl. numerically equal 1/1.0, atoms whose interning order differs from their text order, compounds varying arity/name/arguments, lists in several notations, strings): compare/3 and the six comparison predicates, each side written separately; (b) order laws (one of < = >, '=' only for identical terms, antisymmetry, transitivity) on the complete comparison matrix computed inside ONE call for term sets with shared variables and for sliding windows of the ground universe; (c) sort/2 and setof/3 on all lists of length <= L over a 8-10 term sub-universe, keysort/2 on all lists of length <= K over 4 keys with the position as payload, and on all 2^13 lists of length 13, 14 (16, 20) over two or three keys (stability needs > 12 elements); (d) every pair of abstract lists through every pair of the 13 construction recipes: compare/3 and sort/2. Non-trivial = decided.",
+		Rule: "(a) all ordered pairs over a universe of 66 terms (variables, floats, integers incl. numerically equal 1/1.0, atoms whose interning order differs from their text order, compounds varying arity/name/arguments, lists in several notations, strings): compare/3 and the six comparison predicates, each side written separately; (b) order laws (one of < = >, '=' only for identical terms, antisymmetry, transitivity) on the complete comparison matrix computed inside ONE call for term sets with shared variables and for sliding windows of the ground universe; (c) sort/2 and setof/3 on all lists of length <= L over a 8-10 term sub-universe, keysort/2 on all lists of length <= K over 4 keys with the position as payload, and on all 2^13 lists of length 13, 14 (16, 20) over two or three keys (stability needs > 12 elements); (d) every pair of abstract lists through every pair of the 13 construction recipes: compare/3 and sort/2; (e) numbers: the complete comparison matrix with the order laws over the integer boundary grid (around 0, +-2^31, +-2^32, +-2^53, +-2^62, min/max) and the float grid of C07, bare and nested in 5 compound/list shapes; the six comparison predicates on all pairs of the bare grid; sort/2, msort/2, setof/3 and keysort/2 on all lists of length <= 3 (4) over 12 extreme values. Non-trivial = decided.",
 		Explanation: "state = a pair/list of terms; transition = one comparison or sort executed on the real interpreter and compared with the reference standard order (Var < Float < Integer < Atom < Compound; arity, name, arguments) - pairs whose order hinges on two distinct unbound variables are only subject to the in-call law checks",
 		Assumptions: []string{"reference: ref/order exactly as the property states the order", "-0.0 versus 0.0 is not in the universe (the two are '=' here although they are written differently)"},
 		Work:        c08Work,
